@@ -1,0 +1,57 @@
+//go:build verif
+
+package file
+
+// Verification-only accessor (build tag `verif`) for property C03: a read-only snapshot of the
+// jobs of a running file.Plugin. Nothing here is compiled into normal builds.
+
+// VerifJobState is a copy of the restart-relevant fields of one job.
+type VerifJobState struct {
+	SourceID  uint64
+	Inode     uint64
+	Filename  string
+	CurOffset int64
+	TailLen   int
+	IsDone    bool
+	IgnoreLE  uint64
+	LastSeq   uint64
+	Streams   []string // job.offsets, in SliceMap order
+	Offsets   []int64
+}
+
+// VerifJobStates copies the state of every job under the locks the plugin itself uses
+// (jobsMu for the table, job.mu per job).
+func VerifJobStates(p *Plugin) []VerifJobState {
+	jp := p.jobProvider
+	if jp == nil {
+		return nil
+	}
+	jp.jobsMu.RLock()
+	jobs := make([]*Job, 0, len(jp.jobs))
+	for _, j := range jp.jobs {
+		jobs = append(jobs, j)
+	}
+	jp.jobsMu.RUnlock()
+
+	out := make([]VerifJobState, 0, len(jobs))
+	for _, j := range jobs {
+		j.mu.Lock()
+		st := VerifJobState{
+			SourceID:  uint64(j.sourceID),
+			Inode:     uint64(j.inode),
+			Filename:  j.filename,
+			CurOffset: j.curOffset,
+			TailLen:   len(j.tail),
+			IsDone:    j.isDone,
+			IgnoreLE:  j.ignoreEventsLE,
+			LastSeq:   j.lastEventSeq,
+		}
+		for _, so := range j.offsets {
+			st.Streams = append(st.Streams, string(so.Stream))
+			st.Offsets = append(st.Offsets, so.Offset)
+		}
+		j.mu.Unlock()
+		out = append(out, st)
+	}
+	return out
+}
